@@ -51,13 +51,15 @@ theorem C16_gen_contractStep (bs : List (Branch L K)) (an rn : L) :
         fun b => if decide (b.n2 = an) then Py.mkBranch b.n1 rn (Py.element b) else b).filter
         fun b => decide (b.n1 ≠ b.n2)) = contractStep bs an rn := gen_contractStep bs an rn
 
-/-- the once-computed list of `(absorbed, retained)` pairs with the reference-node rule -/
+/-- the initial list of terminal pairs of the non-exempt shorts, with the reference-node rule -/
 theorem C16_gen_shortPairs (N : Net L K) (keep : List (Py.Elt K)) :
     ((N.branches.filter fun b => is_short_circuit b.e && decide (Py.element b ∉ keep)).map fun vs =>
         if (!(Gen.Transformers.Network.is_zero_node N vs.n1)) then (vs.n1, vs.n2) else (vs.n2, vs.n1))
       = shortPairs N (keep.map ElemKey.ofElt) := gen_shortPairs N keep
 
-/-- `remove_short_circuit_elements`: pair list computed once, loop = left fold of the step -/
+/-- `remove_short_circuit_elements`: the indexed loop `for k in range(len(pairs))` — take `pairs[k]`
+(never an IndexError: the list keeps its length), orient it by the reference-node rule, contract,
+rename the whole pair list — is the hand model's recursion `contractAll` over the remaining pairs -/
 theorem C16_gen_removeShort (N : Net L K) (keep : List (Py.Elt K)) :
     remove_short_circuit_elements N keep = removeShort N (keep.map ElemKey.ofElt) := gen_removeShort N keep
 
